@@ -278,12 +278,21 @@ class WebSocket:
                             self.handshake_response.headers,
                         )
                     self.sock.close()
-                    self.sock, addrs = connect(
-                        url,
-                        self.sock_opt,
-                        proxy_info(**options),
-                        options.pop("socket", None),
-                    )
+                    try:
+                        self.sock, addrs = connect(
+                            url,
+                            self.sock_opt,
+                            proxy_info(**options),
+                            options.pop("socket", None),
+                        )
+                    except ValueError as e:
+                        # the redirect target is the server's data, not the caller's url
+                        raise WebSocketBadStatusException(
+                            f"Handshake status {self.handshake_response.status}: invalid redirect Location {url!r} ({e})",
+                            self.handshake_response.status,
+                            None,
+                            self.handshake_response.headers,
+                        )
                     self.handshake_response = handshake(
                         self.sock, url, *addrs, **options
                     )
